@@ -54,7 +54,7 @@ Section FD.
     f_op_ok (f_items f) (tr_fop op) (tr_fres (snd (fd_step ih f op))) (f_items (fst (fd_step ih f op))) = true.
   Proof.
     intros ND SO. unfold f_op_ok. rewrite fd_step_items, pairs_eqb_refl. simpl.
-    destruct op as [k v|k|kvs|kvs|k d|k d| | | |k|kvs| |plain]; simpl; trivial.
+    destruct op as [k v|k|kvs|kvs|k d|k d| | | |k|kvs| |plain| ]; simpl; trivial.
     - (* hash *)
       rewrite (fd_hash_result ih f SO). unfold hash_of.
       change (fun p : nat * nat => is_unhashable (snd p)) with (fun p : nat * nat => unhashable (snd p)).
@@ -71,6 +71,10 @@ Section FD.
     - unfold functional. rewrite (proj2 (nodup_b_true _) ND), same_set_refl, hash_shape_model. reflexivity.
     - unfold functional. rewrite (proj2 (nodup_b_true _) ND), same_set_refl.
       destruct plain; [reflexivity|]. rewrite hash_shape_model. reflexivity.
+    - (* loaded in another process *)
+      unfold functional. rewrite (proj2 (nodup_b_true _) ND), same_set_refl. simpl.
+      change (fun p : nat * nat => is_unhashable (snd p)) with (fun p : nat * nat => unhashable (snd p)).
+      match goal with |- context [existsb ?g ?l] => destruct (existsb g l) eqn:E end; simpl; rewrite ?E; reflexivity.
   Qed.
 
   Fixpoint fd_trace (f : fdict) (ops : list fd_op) : list (fd_op * fd_obs) :=
@@ -84,7 +88,8 @@ Section FD.
   Proof.
     destruct r as [v|e]; simpl.
     - destruct v; simpl; rewrite ?Nat.eqb_refl, ?Z.eqb_refl; trivial.
-      rewrite items_eqb_refl. destruct same_obj, equal, h; simpl; rewrite ?Z.eqb_refl; reflexivity.
+      + rewrite items_eqb_refl. destruct same_obj, equal, h; simpl; rewrite ?Z.eqb_refl; reflexivity.
+      + rewrite items_eqb_refl. destruct hash_same, equal, member as [[|]|]; reflexivity.
     - destruct e; simpl; trivial; apply Nat.eqb_refl.
   Qed.
 
@@ -100,7 +105,7 @@ Section FD.
     { intros items' ND' Eq. rewrite dict_eqb_same_set in Eq by assumption. apply same_set_true in Eq.
       assert (Pm : Permutation items' (f_items f)) by now apply EqSet_perm.
       rewrite <- (hash_order_free ih _ _ Pm), <- hash_out_of. unfold hash_out. dex; reflexivity. }
-    destruct op as [k v|k|kvs|kvs|k d|k d| | | |k|kvs| |plain]; simpl;
+    destruct op as [k v|k|kvs|kvs|k d|k d| | | |k|kvs| |plain| ]; simpl;
       try (split; [constructor|intro; discriminate]; fail).
     - (* hash *) split; [|intros _; discriminate]. constructor; [|constructor].
       now rewrite (fd_hash_result ih f SO).
